@@ -219,3 +219,29 @@ def total_reach(bad: int, prefix: bool, via_file: bool, fail_at: int, code: int,
     del TAGS[:]
     r = _run(bad, prefix, via_file, fail_at, code, second)
     return not (r is None and 'second-ok' in TAGS)
+
+
+# ------------------------------------------------------------------ repository faults on VALID MOF (exhausted in the quick tier)
+def faults(fail_at: int, code: int, prefix: bool, via_file: bool, second: bool) -> Optional[str]:
+    """
+    pre: 0 <= fail_at <= 6 and 1 <= code <= 28
+    pre: (fail_at * 2 + code % 2) % NPARTS == PART
+    post: _ is None
+    """
+    return _run(len(BAD), prefix, via_file, fail_at, code, second)
+
+
+def faults_reach(fail_at: int, code: int, prefix: bool, via_file: bool, second: bool) -> bool:
+    """
+    pre: 0 <= fail_at <= 6 and 1 <= code <= 28
+    pre: (fail_at * 2 + code % 2) % NPARTS == PART
+    post: _
+    """
+    del TAGS[:]
+    r = _run(len(BAD), prefix, via_file, fail_at, code, second)
+    return not (r is None and 'mof-error' in TAGS)
+
+
+def replay_faults(fail_at, code, prefix, via_file, second):
+    r = _total(len(BAD), prefix, via_file, fail_at, code, second)
+    return (r is not None), repr(r)
